@@ -162,6 +162,21 @@ def gen(ctx, name, spec, emit, ndocs, ops, maxlen, total, tag, **kw):
     return ctx.tlc_gen("Iso_MC.tla", ctx.cfg(name, spec, consts(ndocs, ops, maxlen, total), invariants=[emit]), tag, **kw)
 
 
+def unordered(ctx, cases, tag):
+    """Free-running programs have no schedule: keep one case per multiset of per-document programs."""
+    seen, out = set(), []
+    for c in cases:
+        progs = {}
+        for st in c["steps"]:
+            progs.setdefault(st["d"], []).append((st["op"], st["a"]))
+        key = tuple(sorted(tuple(p) for p in progs.values()))
+        if key not in seen:
+            seen.add(key)
+            out.append(c)
+    ctx.cases_by_tag[tag] = {c["id"]: c for c in out}
+    return out
+
+
 def execute(ctx, cases, tag, mode, **kw):
     """Run cases in the given mode and judge them."""
     t0 = time.time()
@@ -222,10 +237,10 @@ def run(ctx):
     if on("race"):
         # (5) the same programs free-running on one goroutine per document under the race detector
         race = gen(ctx, "gen_race.cfg", "SpecGen", "Emit", 2, CORE if q else FULL, 1, 2, "race")
-        execute(ctx, race, "race", "race", rounds=24 if q else 40)
+        execute(ctx, unordered(ctx, race, "race"), "race", "race", rounds=24 if q else 40)
         if not q:
             race2 = gen(ctx, "gen_race2.cfg", "SpecGen", "Emit", 3, FULL, 3, 7, "race2", mode="sim", num=8, depth=8, limit=200)
-            execute(ctx, race2, "race2", "race", rounds=24)
+            execute(ctx, unordered(ctx, race2, "race2"), "race2", "race", rounds=24)
     if not ctx.extra_cov.get("library_has_registry_hooks"):
         ctx.assumptions.append("the library under test has no notes./numbering. hook points: sub-step schedules were executed "
                                "at call granularity (each call ran at its 'begin' entry)")
